@@ -14,7 +14,7 @@ ASSUMPTIONS = ['overcommit enabled (the configuration the scheduler is written f
 
 def monitor(run):
     fails = collections.Counter()     # pipeline -> failed containers the scheduler has been told about
-    for rd in SP.rounds(run):
+    for rd in SP.rounds(run) + SP.failed_rounds(run):
         t = rd.t
         for x in rd.results_in:
             if x['err']:
@@ -34,7 +34,7 @@ def monitor(run):
         for pi, p in enumerate(rd.d['pools']):
             if len(p['active']) + len(p['suspending']) > p['max_cpu']:
                 yield f'tick {t}: pool {pi} runs {len(p["active"])} containers with {p["max_cpu"]} CPUs'
-        if rd.new or rd.results_in:
+        if (rd.new or rd.results_in) and not rd.failed:
             free = [rd.free_after(pi)[0] for pi in range(run.r['npools'])]
             if any(f >= 1 for f in free):
                 for k in SP.arrived(run, t):
